@@ -209,6 +209,7 @@ type Interp struct {
 	boundsUsed map[string]int
 	known map[*sym.Term]bool
 	schedMode string
+	syncMaps    map[*Value]*Map
 	schedLog    []SchedEvent
 	handoffKind string
 	lastCallPos token.Pos
@@ -707,6 +708,7 @@ func (in *Interp) resetPath() {
 	in.pathViolations = 0
 	in.schedMode = ""
 	in.schedLog = nil
+	in.syncMaps = nil
 	in.handoffKind = ""
 	in.known = map[*sym.Term]bool{}
 	in.mapOrderOverride = ""
